@@ -32,16 +32,17 @@ type c14Case struct {
 	UserClass string `json:"user_class"`
 	PassClass string `json:"pass_class"`
 	// what the server stores (after the normalisation every profile agrees on)
-	StoredUser string `json:"stored_user"`
-	StoredPass string `json:"stored_pass"`
-	Wrong      bool   `json:"wrong_secret"` // the server holds a different password
-	Admissible bool   `json:"admissible"`   // false: no profile admits the credentials for SCRAM
-	SaltLen    int    `json:"salt_len"`
-	Iter       int    `json:"iter"`
-	Nonce      string `json:"server_nonce"`
-	Challenge  string `json:"cram_challenge"`
-	TLSVersion string `json:"tls"` // none | 1.2 | 1.3
-	Via        string `json:"via"` // client (mail.Client) | direct (smtp.Client.Auth) | retry (same Auth object twice)
+	StoredUser   string `json:"stored_user"`
+	StoredPass   string `json:"stored_pass"`
+	Wrong        bool   `json:"wrong_secret"` // the server holds a different password
+	Admissible   bool   `json:"admissible"`   // false: no profile admits the credentials for SCRAM
+	SaltLen      int    `json:"salt_len"`
+	Iter         int    `json:"iter"`
+	Nonce        string `json:"server_nonce"`
+	Challenge    string `json:"cram_challenge"`
+	TLSVersion   string `json:"tls"`                     // none | 1.2 | 1.3
+	Via          string `json:"via"`                     // client (mail.Client) | direct (smtp.Client.Auth) | retry (same Auth object twice)
+	RetryVariant string `json:"retry_variant,omitempty"` // what differs at the server on the second attempt: same | iter | salt | both | nonce
 }
 
 type credClass struct {
@@ -130,6 +131,10 @@ func genC14(r *mrand.Rand, i int) c14Case {
 	case 1:
 		if isScram(c.Mech) && !isPlus(c.Mech) {
 			c.Via = "retry"
+			c.RetryVariant = gen.Pick(r, []string{"same", "iter", "iter", "salt", "both", "nonce"})
+			if c.SaltLen == 0 {
+				c.SaltLen = 16
+			}
 		}
 	}
 	return c
@@ -147,14 +152,29 @@ func tlsVer(s string) uint16 {
 	return tls.VersionTLS13
 }
 
-func (c *c14Case) srv() *authSrv {
+func (c *c14Case) srv(n int) *authSrv {
 	a := &authSrv{User: c.StoredUser, Pass: c.StoredPass, Iter: c.Iter, ServerNonce: c.Nonce, CramChallenge: c.Challenge}
+	// a retry on the same Auth object meets a server whose parameters have changed
+	saltSeed := 0
+	if n > 0 {
+		switch c.RetryVariant {
+		case "iter":
+			a.Iter = c.Iter*2 + 1
+		case "salt":
+			saltSeed = 101
+		case "both":
+			a.Iter = c.Iter + 7
+			saltSeed = 55
+		case "nonce":
+			a.ServerNonce = c.Nonce + "Second"
+		}
+	}
 	if c.Wrong {
 		a.Pass = c.StoredPass + "-but-different"
 	}
 	a.Salt = make([]byte, c.SaltLen)
 	for i := range a.Salt {
-		a.Salt[i] = byte(i*37 + 11)
+		a.Salt[i] = byte(i*37 + 11 + saltSeed)
 	}
 	return a
 }
@@ -167,7 +187,9 @@ func runC14Case(r *ev.Run, c c14Case, nonces *c14Nonces) {
 	var srvs []*authSrv
 	var smu sync.Mutex
 	newCfg := func(int) *refsmtp.Config {
-		a := c.srv()
+		smu.Lock()
+		a := c.srv(len(srvs))
+		smu.Unlock()
 		smu.Lock()
 		srvs = append(srvs, a)
 		smu.Unlock()
@@ -323,7 +345,10 @@ func runC14Case(r *ev.Run, c c14Case, nonces *c14Nonces) {
 			r.Count("plus_exchanges_"+c.TLSVersion, 1)
 		}
 	}
-	r.Eval(fmt.Sprintf("%s|%s|%s|%t|%d|%d|%s|%s", c.Mech, c.UserClass, c.PassClass, c.Wrong, c.SaltLen, c.Iter, c.TLSVersion, c.Via), true)
+	r.Eval(fmt.Sprintf("%s|%s|%s|%t|%d|%d|%s|%s|%s", c.Mech, c.UserClass, c.PassClass, c.Wrong, c.SaltLen, c.Iter, c.TLSVersion, c.Via, c.RetryVariant), true)
+	if c.Via == "retry" {
+		r.Seen("retry_variants", c.RetryVariant)
+	}
 	_ = net.IPv4len
 	_ = sasl.ReasonSyntax
 }
